@@ -346,8 +346,8 @@ def check_constraint_writes(model, rep):
     subs = [c for c in calls_in(f.node) if method_name(c) == 'submatrix']
     ok = len(subs) == 1 and [src(a) for a in subs[0].args] == [In, Jn]
     rep.ob('R14.4', f.key, f.where(subs[0]) if subs else f.where(), ok, 'reduced system is submatrix(I, J)' if ok else 'reduced system is not submatrix(I, J)', statement='submatrix(I, J)')
-    sol = [c for c in calls_in(f.node) if method_name(c) == '_solver' and c.args and 'lhs' in src(c.args[0])]
-    ok = len(sol) == 1 and src(sol[0].args[0]).replace(' ', '') == f'(rhs-self@lhs)[{In}]'
+    sol = [c for c in calls_in(f.node) if method_name(c) == '_solver' and c.args and 'lhs' in src(resolved(f.node, c.args[0]))]
+    ok = len(sol) == 1 and src(resolved(f.node, sol[0].args[0])).replace(' ', '') == f'(rhs-self@lhs)[{In}]'
     rep.ob('R14.4', f.key, f.where(sol[0]) if sol else f.where(), ok, 'reduced right-hand side is (rhs - A lhs)[I]' if ok else
            'the reduced right-hand side is not (rhs - self @ lhs)[I]: prescribed values would not be lifted', statement='reduced-rhs')
 
